@@ -68,7 +68,10 @@ class NetWorld(World):
                  "tracklib.core.utils.priority_dict", "tracklib.core.SpatialIndex", "tracklib.algo.mapping",
                  "tracklib.algo.dynamics.HMM", "tracklib.util.geometry", "tracklib.io.NetworkWriter / NetworkReader",
                  "tracklib.core.Track (reverse, +, >) used to chain geometries"],
-        "stub": ["disk used by the reload step: in-memory SimFS with fault plan", "stdout of tracklib: discarded"]}
+        "stub": ["disk used by the reload step: in-memory SimFS with fault plan",
+                 "working directory of the process (debug file observation.dat of mapOnNetwork): SimFS behind "
+                 "the module-level name open of tracklib.algo.mapping",
+                 "stdout of tracklib: discarded"]}
     STATE_MEASURE = "per session: (nodes up to 4, edges up to 6, spatial index exists, prepared table exists, grown since prepare, exact dyadic weights)"
     ASSUMPTIONS = [
         "sessions interleave at whole-API-call granularity (module globals of mapping are rebuilt per call)",
@@ -125,8 +128,21 @@ class NetWorld(World):
         self.model = {}
         self.tracks = {}          # (session, slot) -> explicit track spec of the last mapping
         self.ecount = 0
+        # debug mode of mapOnNetwork appends to "observation.dat" in the working directory: the
+        # working directory of the simulated process is /sim/cwd on the simulated disk
+        import sys
+        self.fs.mkdir("/sim/cwd")
+        self._mapping = sys.modules["tracklib.algo.mapping"]
+        self._mapping_open = self._mapping.__dict__.get("open", None)
+        fs = self.fs
+        self._mapping.open = lambda path, mode="r", *a, **k: fs.open(
+            path if path.startswith("/") else "/sim/cwd/" + path, mode, *a, **k)
 
     def teardown(self):
+        if self._mapping_open is None:
+            self._mapping.__dict__.pop("open", None)
+        else:
+            self._mapping.open = self._mapping_open
         simfs.uninstall()
         simfs.reset_globals()
 
@@ -232,8 +248,14 @@ class NetWorld(World):
         st = {"op": "map", "s": s, "slot": slot, "obs": self._gen_track(r, m), "noise": r.choice([1, 10, 50]),
               "z": self.cfg.get("alt", 0.0) if r.random() < 0.7 else 0.0,
               "radius": self._gen_radius(r), "tcost": r.choice([1, 10]), "coll": r.random() < 0.3}
+        if r.random() < 0.15:
+            st["debug"] = True            # appends every candidate to observation.dat (simulated disk)
         if r.random() < self.cfg["fault_rate"] * 0.5:
             st["fault"] = {"kind": "interrupt", "at": int(round(10 ** r.uniform(0, 3.3)))}
+            if st.get("debug") and r.random() < 0.6:
+                k = r.choice(["open_error", "write_error", "write_error"])
+                st["fault"] = {"kind": k, "at": 1 if k == "open_error" else r.choice([1, 2, 3, 5, 9]),
+                               "errno": r.choice([28, 5, 13])}
         return st
 
     def _gen_cut(self, r, m):
@@ -849,23 +871,33 @@ class NetWorld(World):
             self.probe("on_vertical")
         arg = TrackCollection([g for g, _ in group]) if st.get("coll") else tr
         fault = st.get("fault")
+        debug = bool(st.get("debug"))
+        if debug:
+            self.probe("debug_mode_writes_candidates_to_disk")
         if fault:
-            # a notebook user interrupts a long matching (Ctrl-C): the process and the module
-            # globals of tracklib.algo.mapping live on; later calls are held to every oracle
+            # a notebook user interrupts a long matching (Ctrl-C), or the debug file cannot be
+            # opened / written (disk full): the process and the module globals of
+            # tracklib.algo.mapping live on; later calls are held to every oracle
             self.fs.plan.arm(fault)
-            self.stats["fault_armed:interrupt"] += 1
-            with simfs.Interrupter(self.fs.plan, traced=MAP_TRACED):
-                _, exc = self.call(mapOnNetwork, arg, net, st["noise"], st["tcost"], radius)
+            self.stats["fault_armed:" + fault["kind"]] += 1
+            if fault["kind"] == "interrupt":
+                with simfs.Interrupter(self.fs.plan, traced=MAP_TRACED):
+                    _, exc = self.call(mapOnNetwork, arg, net, st["noise"], st["tcost"], radius, debug)
+            else:
+                _, exc = self.call(mapOnNetwork, arg, net, st["noise"], st["tcost"], radius, debug)
             fired = self.fs.plan.fired
             self.fs.plan.clear()
             if fired:
-                self.stats["fault_fired:interrupt"] += 1
+                self.stats["fault_fired:" + fault["kind"]] += 1
                 for k2 in [k2 for k2, v in self.tracks.items() if any(v["real"] is g for g, _ in group)]:
                     del self.tracks[k2]          # the half-processed tracks are thrown away
-                self.probe("interrupted_map_matching")
+                self.probe("interrupted_map_matching" if fault["kind"] == "interrupt" else
+                           "map_matching_failed_on_its_debug_file")
+                if exc is None:
+                    self.probe("fault_swallowed_by_call")
                 return "fault"
         else:
-            _, exc = self.call(mapOnNetwork, arg, net, st["noise"], st["tcost"], radius)
+            _, exc = self.call(mapOnNetwork, arg, net, st["noise"], st["tcost"], radius, debug)
         if exc is not None:
             import traceback
             tb = traceback.extract_tb(exc.__traceback__)
